@@ -18,6 +18,11 @@
 (***************************************************************************)
 EXTENDS Types
 
+\* An owner is the STRING given in the message.  "A1" is the all-upper-case bech32
+\* spelling of account a1's address: a valid spelling with the same signer but a
+\* different controller port (port ids are case-sensitive).
+Acct(o) == CASE o = "A1" -> "a1" [] o = "A2" -> "a2" [] o = "A3" -> "a3" [] OTHER -> o
+
 \* m: [owner, conn, msg]
 H_SubmitTx(x, m) ==
   IF [owner |-> m.owner, conn |-> m.conn] \notin x.chans \/ [owner |-> m.owner, conn |-> m.conn] \notin x.caps
@@ -48,7 +53,7 @@ XStep(m) ==
   LET r == XApply(xst, m) IN
   /\ xst' = r.s
   /\ xev' = [type |-> m.type, m |-> m, ok |-> r.ok, resp |-> r.resp,
-             signers |-> IF m.type \in {"SubmitTx", "RegisterAccount"} THEN {m.owner} ELSE {"none"}, dom |-> "spec"]
+             signers |-> IF m.type \in {"SubmitTx", "RegisterAccount"} THEN {Acct(m.owner)} ELSE {"none"}, dom |-> "spec"]
 
 XInit ==
   /\ xst = [now |-> 6, chans |-> {}, caps |-> {}, sent |-> <<>>, regs |-> <<>>]
@@ -63,7 +68,7 @@ C20_Forward_Step ==
   THEN /\ Len(xst'.sent) = Len(xst.sent) + 1
        /\ SubSeq(xst'.sent, 1, Len(xst.sent)) = xst.sent
        /\ LET p == xst'.sent[Len(xst'.sent)] IN
-          /\ p.owner = xev'.m.owner /\ xev'.signers = {xev'.m.owner}
+          /\ p.owner = xev'.m.owner /\ xev'.signers = {Acct(xev'.m.owner)}
           /\ p.conn = xev'.m.conn
           /\ p.msgs = <<xev'.m.msg>>
           /\ p.kind = "EXECUTE_TX"
